@@ -3,7 +3,7 @@
 //!   chk <ID> --replay <file>
 //!   chk --child <kind> ...          (process-isolated workers, see isolate)
 
-use serde_json::Value;
+use serde_json::{json, Value};
 use vcore::runner::*;
 
 mod api;
@@ -136,6 +136,42 @@ fn main() {
                 // a bug in the harness itself: never reported as a violation
                 println!("INFRA: the harness panicked: {p}");
                 ctx.inconclusive(&format!("harness panic: {p}"));
+            }
+            if args.get(3).map(|s| s.as_str()) == Some("as-child") {
+                // the same check in another build configuration, run for a parent process
+                println!("RESULTS {}", ctx.export());
+                std::process::exit(0);
+            }
+            if let Ok(plain) = std::env::var("VERIF_CHK_PLAIN") {
+                if matches!(id, "C09" | "C10" | "C13" | "C14" | "C16" | "C17" | "C19") {
+                    // once more in a binary built the way users build the library (no debug assertions, no
+                    // overflow checks): code inside debug_assert!, and arithmetic that wraps instead of
+                    // panicking, behave differently there
+                    ctx.assume("the whole check is run a second time by a binary built without debug assertions and overflow checks (sub-check names end in @no-debug-assertions); its counts are added");
+                    match std::process::Command::new(&plain).arg(id).arg(&args[2]).arg("as-child").env("VERIF_SUB_SUFFIX", "@no-debug-assertions").env_remove("VERIF_CHK_PLAIN").output() {
+                        Err(e) => ctx.inconclusive(&format!("spawn {plain}: {e}")),
+                        Ok(out) => {
+                            let text = String::from_utf8_lossy(&out.stdout);
+                            match text.lines().find(|l| l.starts_with("RESULTS ")).and_then(|l| serde_json::from_str::<Value>(&l[8..]).ok()) {
+                                Some(mut v) => {
+                                    if let Some(vs) = v.get_mut("violations").and_then(|x| x.as_array_mut()) {
+                                        for x in vs.iter_mut() {
+                                            let (sub, sig) = (x.get("sub").and_then(|s| s.as_str()).unwrap_or("").to_string(), x.get("sig").and_then(|s| s.as_str()).unwrap_or("").to_string());
+                                            x["sub"] = json!(sub);
+                                            x["sig"] = json!(format!("{sig}@no-debug-assertions"));
+                                            let m = x.get("msg").and_then(|s| s.as_str()).unwrap_or("").to_string();
+                                            x["msg"] = json!(format!("in a build without debug assertions and overflow checks: {m}"));
+                                        }
+                                    }
+                                    // the child's known-finding exclusions are not re-counted; samples are not duplicated
+                                    v["samples"] = json!([]);
+                                    ctx.import(&v)
+                                }
+                                None => ctx.inconclusive(&format!("the no-debug-assertions binary gave no results (status {:?})", out.status)),
+                            }
+                        }
+                    }
+                }
             }
             std::process::exit(ctx.finish());
         }
